@@ -59,6 +59,31 @@ def bytecode_crosscheck(ctx) -> Dict[str, int]:
 
 
 def extra_checks(ctx, out, pid: str, instances: List, repo: str) -> None:
+    """Runs after the verdict of the property has been computed on `repo`.  Adds the bytecode cross-check
+    and - when the tree has no violation of its own - the sensitivity / specificity self-test of the rules
+    of this property (single-instance breaks must fire, benign twins must stay silent)."""
+    import os
     stats = bytecode_crosscheck(ctx)
     for k, v in stats.items():
         out.counters[k] = v
+    if any(i.verdict == 'VIOLATION' for i in instances if not getattr(i, 'known', False)) and os.environ.get('VERIF_SELFTEST_ALWAYS') != '1':
+        # the tree under analysis is itself broken: mutating it further says nothing about the checker
+        own = [i for i in instances if i.verdict == 'VIOLATION']
+        from .report import known_index, load_known
+        known = known_index(load_known())
+        if any((pid, i.rule, i.construct) not in known for i in own):
+            out.selftest = {'skipped': 'the analysed tree has new violations of its own'}
+            return
+    from . import selftest
+    summary = selftest.run(repo, props=[pid], jobs=int(os.environ.get('VERIF_JOBS', '16')))
+    out.selftest = summary
+    problems = []
+    if summary['missed']:
+        problems.append(f"single-instance breaks not detected: {summary['missed'][:4]}")
+    if summary['false_alarms']:
+        problems.append(f"benign twins flagged: {summary['false_alarms'][:4]}")
+    if summary['undecided']:
+        problems.append(f"undecided on corpus variants: {summary['undecided'][:4]}")
+    out.selftest_problems = problems
+    if problems and os.environ.get('VERIF_SELFTEST_STRICT') == '1':
+        raise AnalysisError('self-test of the checker failed: ' + '; '.join(problems))
